@@ -83,7 +83,7 @@ def gen_cases(rng, n_per_family):
         add('sqrt:dataset', 'DS_r <- sqrt(DS_1);', *num_ds(neg))
         add('sqrt:component', 'DS_r <- DS_1[calc Me_3 := sqrt(Me_1)];', *num_ds(neg))
         add('sqrt:scalar', 'sc_r <- sqrt(%s);' % pick(['-1', '-0.25']), *num_ds([1.0]))
-        add('power:component', 'DS_r <- DS_1[calc Me_3 := power(Me_1, %s)];' % pick(['0.5', '-1', '1000']), *num_ds([pick([-4.0, 0.0]), 1e30]))
+        add('power:component', 'DS_r <- DS_1[calc Me_3 := power(Me_1, %s)];' % pick(['0.5', '-1', '1000']), *num_ds([pick([-4.0, 0.0]), 9e17]))
         add('exp:dataset', 'DS_r <- exp(DS_1);', *num_ds([1e6, 800.0]))
         # ---- overflow
         big = 9223372036854775807
@@ -92,10 +92,10 @@ def gen_cases(rng, n_per_family):
         add('overflow:int-dataset', 'DS_r <- DS_1 %s %s;' % (pick(['+', '*']), pick(['1', '2', '1000'])), sto, do)
         add('overflow:int-abs', 'DS_r <- abs(DS_1 - 2) ;', *num_ds([-big, 1], typ='Integer'))
         add('overflow:int-sum', 'DS_r <- sum(DS_1 group except Id_1);', *num_ds([big, big, 5], typ='Integer'))
-        bign = pick([1e20, 9e27, 1e15])
+        bign = pick([9e17, 1e15, 1e12])
         add('overflow:decimal-mul', 'DS_r <- DS_1[calc Me_3 := Me_1 * Me_2];', *num_ds([bign, 2.0], [bign, 3.0]))
         add('overflow:decimal-dataset', 'DS_r <- DS_1 * DS_1 * DS_1;', *num_ds([bign, 2.0]))
-        add('overflow:number-to-int', 'DS_r <- DS_1[calc Me_3 := cast(Me_1, integer)];', *num_ds([pick([1e30, 1e19]), 2.0]))
+        add('overflow:number-to-int', 'DS_r <- DS_1[calc Me_3 := cast(Me_1, integer)];', *num_ds([pick([9e17, 1e16]), 2.0]))
         add('overflow:round', 'DS_r <- round(DS_1, %s);' % pick(['40', '-40', '400']), *num_ds([bign, 2.5]))
         # ---- casts of unparsable strings
         bad = [pick(['abc', '12x', '', ' ', '1e400', '2020-13-45', '2020Q5', 'P1Y', 'true']) for _ in range(2)] + ['7']
@@ -108,15 +108,17 @@ def gen_cases(rng, n_per_family):
         # ---- Time_Period values in each output format
         tps = [pick(['2020A', '2020S1', '2020Q3', '2020M11', '2020W33', '2020D250', '2021Q1', '2021-02', '2020-W05']) for _ in range(3)]
         tps = list(dict.fromkeys(tps))
-        fmt = pick(FMTS)
+        if not any(t[4:5] in 'QSW' or '-W' in t for t in tps): tps.append(pick(['2020Q2', '2020S2', '2020W07']))
         stt = structs(('DS_1', [comp('Id_1', 'Time_Period', 'Identifier'), comp('Me_1', 'Number', 'Measure')]))
-        add('tpformat:identifier:' + fmt, 'DS_r <- DS_1;', stt, {'DS_1': {'Id_1': tps, 'Me_1': [1.0] * len(tps)}}, fmt)
         stm = structs(('DS_1', [comp('Id_1', 'Integer', 'Identifier'), comp('Me_1', 'Time_Period', 'Measure'), comp('Me_2', 'Time_Period', 'Measure')]))
         dm = {'DS_1': {'Id_1': list(range(len(tps))), 'Me_1': tps, 'Me_2': list(reversed(tps))}}
-        add('tpformat:measure:' + fmt, 'DS_r <- DS_1[filter Id_1 >= 0];', stm, dm, fmt)
-        add('tpformat:cast-string:' + fmt, 'DS_r <- DS_1[calc Me_3 := cast(Me_1, string)];', stm, dm, fmt)
-        add('tpformat:scalar:' + fmt, 'sc_r <- cast("%s", time_period);' % pick(tps), stm, dm, fmt)
-        add('tpformat:timeshift:' + fmt, 'DS_r <- timeshift(DS_1, %s);' % pick(['1', '-3']), stt, {'DS_1': {'Id_1': [pick(['2020Q1', '2020S2', '2020W10'])], 'Me_1': [1.0]}}, fmt)
+        for fmt in FMTS:
+            add('tpformat:identifier:' + fmt, 'DS_r <- DS_1;', stt, {'DS_1': {'Id_1': tps, 'Me_1': [1.0] * len(tps)}}, fmt)
+            add('tpformat:measure:' + fmt, 'DS_r <- DS_1[filter Id_1 >= 0];', stm, dm, fmt)
+            add('tpformat:cast-string:' + fmt, 'DS_r <- DS_1[calc Me_3 := cast(Me_1, string)];', stm, dm, fmt)
+            add('tpformat:scalar:' + fmt, 'sc_r <- cast("%s", time_period);' % pick(tps), stm, dm, fmt)
+            add('tpformat:timeshift:' + fmt, 'DS_r <- timeshift(DS_1, %s);' % pick(['1', '-3']), stt, {'DS_1': {'Id_1': [pick(['2020Q1', '2020S2', '2020W10'])], 'Me_1': [1.0]}}, fmt)
+        fmt = pick(FMTS)
         # ---- periods with different indicators
         op = pick(['<', '>', '<=', '>='])
         add('tpcmp:component', 'DS_r <- DS_1[calc Me_3 := Me_1 %s Me_2];' % op, stm, {'DS_1': {'Id_1': [1, 2], 'Me_1': ['2020Q1', '2020M03'], 'Me_2': [pick(['2020A', '2020M01']), '2021Q1']}}, fmt)
@@ -394,10 +396,10 @@ def dynamic_part(ck, gen):
     before = len(ck.viol) + len(ck.known_hits)
     import eng  # noqa: F401
     from vtlengine.Exceptions.messages import centralised_messages as live
-    n = 2 if ck.quick() else 12
+    n = 2 if ck.quick() else 8
     cases = gen_cases(ck.rng, n)
     if not ck.quick():
-        cc = corpus_cases(vlib.REPO, ck.rng, 500)
+        cc = corpus_cases(vlib.REPO, ck.rng, 400)
         for i, c in enumerate(cc):
             c['id'] = len(cases) + i
         cases += cc
@@ -484,4 +486,5 @@ def replay(ck):
     print('nothing to replay'); sys.exit(2)
 
 
-vlib.run_check(PID, main)
+if __name__ == "__main__":
+    vlib.run_check(PID, main)
